@@ -211,7 +211,7 @@ def verdict(world, out):
             return "INCONCLUSIVE-SLOW", {"loops": [ph.get("loop"), pe.get("loop")]}
         if not (ph and pe):
             return "INCONCLUSIVE-SLOW", {"what": "budget exhausted outside a population loop"}
-        if pe.get("bounded_by_max_samples") and (pe.get("n_proposed") or 0) > (ph.get("n_proposed") or 0):
+        if pe.get("bounded_by_max_samples"):
             # accumulate_weights mode stops at max_samples proposals by construction
             return "INCONCLUSIVE-SLOW", {"loop": pe["loop"], "n_proposed": [ph.get("n_proposed"), pe.get("n_proposed")]}
         return "NO-PROGRESS", {"progress_half": ph, "progress_end": pe, "steps": b[-1]["steps"] if b else None, "stack": (b[-1].get("stack") or [])[:10] if b else None,
